@@ -95,7 +95,8 @@ REGISTRY = {
                 "then no-run-ahead, full-run-ahead, one intermediate depth, the save worker owning the failing patch's files saving last / first (save-owner gates), and two random-delay schedules derived from the trace; "
                 "25% of the failing series reject into a directory created by an earlier patch of the same run. Non-trivial/distinct: (workspace, thread count, realised interleaving signature = sorted run-ahead depth vector + unroll counts).",
         "floor": floors(("parallel-runs-compared", 1000), ("runs-with-run-ahead", 100), ("schedule:no-run-ahead", 50), ("schedule:full-run-ahead", 50), ("run-ahead-file-patches-unrolled", 100), ("rotation-shape-runs", 30), ("cleanup-race-shape:directory-shared-by-two-save-workers", 20),
-                        ("schedule:failing-owner-saves-last", 30), ("schedule:failing-owner-saves-first", 30), ("shape:reject-in-a-directory-created-by-this-run", 30)),
+                        ("schedule:failing-owner-saves-last", 30), ("schedule:failing-owner-saves-first", 30), ("shape:reject-in-a-directory-created-by-this-run", 30),
+                        ("shape:unloadable-name-after-the-failing-patch:target", 10), ("shape:unloadable-name-after-the-failing-patch:rename-target", 10)),
     },
     "C07": {
         "level_text": "the real FilenameDistributor is driven (hook sub-command) over every canonical sequence of pairs within the bound and random longer ones and its map is compared with an independent union-find; in real parallel pushes the hook trace must show every file loaded by one apply worker and saved by one save worker",
@@ -169,7 +170,8 @@ REGISTRY = {
                 "misordered), files in sub-directories / without extension / several dots / in a directory that does not exist, reversed patches, threads 1/2/4/16. "
                 "Non-trivial: the failing patch has >= 2 file entries or a file with both applying and failing hunks.",
         "floor": floors(("reject-files-verified", 500), ("file-with-applying-and-failing-hunks", 50), ("several-files-rejected", 50), ("reject-legitimately-skipped-(no-directory)", 20), ("shape:reject-in-a-directory-created-by-this-run", 20),
-                        ("shape:failed-hunk-between-hunks-applied-with-an-offset", 30)),
+                        ("shape:failed-hunk-between-hunks-applied-with-an-offset", 30), ("shape:two-failing-file-patches-for-one-file", 30),
+                        ("stale-reject-files-in-place", 100), ("rejects-read-back-with-the-tool's-parser", 500)),
     },
     "C14": {
         "level_text": "differential over the option lattice: the same workspace pushed with -q and with a random option set; tree, .pc, rejects and exit status compared",
